@@ -434,9 +434,21 @@ func c10Guards(c *core.Ctx, ln, align int, r *core.RNG) {
 	if !bytes.Equal(before, arena) {
 		c.Violate("C10|guard|Marshal/Validate", "Marshal/Validate/SetMIC changed the caller's payload buffer (len=%d align=%d)", ln, align)
 	}
-	// EncryptFRMPayload method must not write outside the payload slice either
+	// EncryptFRMPayload method must not write outside the payload slice either, must leave the
+	// caller's plaintext buffer alone, and the encrypted frame must not alias that buffer
 	core.Guard(func() { phy.EncryptFRMPayload(k) })
 	chk("PHYPayload.EncryptFRMPayload", arena, lo, hi)
+	if !bytes.Equal(before, arena) {
+		c.Violate("C10|guard|PHYPayload.EncryptFRMPayload|caller-buffer-modified", "the method overwrote the caller's payload buffer (len=%d align=%d)", ln, align)
+	} else {
+		enc := core.Dump(phy)
+		for i := range arena {
+			arena[i] ^= 0x3C
+		}
+		if now := core.Dump(phy); now != enc {
+			c.Violate("C10|guard|PHYPayload.EncryptFRMPayload|aliases-caller-buffer", "the encrypted frame changes when the caller re-uses its payload buffer (len=%d align=%d)", ln, align)
+		}
+	}
 	c.ShapeHash(uint64(ln)<<8 | uint64(align))
 }
 
@@ -489,7 +501,50 @@ func c10Bands(c *core.Ctx, cfg bandCfg, r *core.RNG, order int) {
 	c.Shape("bands", cfg.String(), order)
 }
 
+// c10BandOrder runs first in a fresh worker process: every configuration is
+// created once in a rotated order (and used a little), then again in the reverse
+// order; a fresh instance must look the same no matter which other bands - of any
+// name - were created or modified before it.
+func c10BandOrder(c *core.Ctx) {
+	if !c.Mine("band-order", int64(c.Batch)) {
+		return
+	}
+	cfgs := allBandCfgs()
+	rot := (c.Batch * 7) % len(cfgs)
+	order := append(append([]bandCfg{}, cfgs[rot:]...), cfgs[:rot]...)
+	first := map[string]string{}
+	for _, cfg := range order {
+		b, err := cfg.New()
+		if err != nil {
+			continue
+		}
+		s, _ := band.VerifSnapshotOf(b)
+		first[cfg.String()] = core.Dump(s)
+		// use the instance: mutations must stay private to it
+		b.AddChannel(s.UplinkChannels[0].Frequency+1600000, 0, 5)
+		b.DisableUplinkChannelIndex(0)
+		b.GetLinkADRReqPayloadsForEnabledUplinkChannelIndices([]int{0, 1})
+		b.GetCFList("1.0.3")
+		b.GetMaxPayloadSizeForDataRateIndex("1.0.2", "B", 0)
+		c.Eval(1)
+	}
+	for i := len(order) - 1; i >= 0; i-- {
+		cfg := order[i]
+		b, err := cfg.New()
+		if err != nil {
+			continue
+		}
+		s, _ := band.VerifSnapshotOf(b)
+		c.Eval(1)
+		if now := core.Dump(s); now != first[cfg.String()] {
+			c.Violate("C10|band-shared-state|creation-order|"+cfg.Name, "a fresh %s instance differs depending on which other bands were created before it in the process:\n first  %s\n later  %s", cfg, short(first[cfg.String()], 400), short(now, 400))
+		}
+		c.Shape("band-order", cfg.Name, c.Batch)
+	}
+}
+
 func runC10(c *core.Ctx) {
+	c10BandOrder(c)
 	c10Setup()
 	decs := c10Decoders()
 	per := c.N(120, 20000)
